@@ -4,6 +4,10 @@ import json
 props=[json.loads(l) for l in open('properties.jsonl')]
 TRUST="Trusted base: the Go type checker/SSA builder of x/tools v0.29.0; the std functions on the allow-lists behave as documented; exported operations receive values produced by the repo's constructors."
 claimed={
+'C03':dict(technique="static analysis: field provenance (regexp capture group -> Version field -> Compare) + abstract-evaluator queries on Compare's decision table; regexp-shape rule for kind flags",
+ text="Decided structurally for the regexp-parsed semver-shaped ecosystems: each leading numeric component is a digits-only capture group parsed by Atoi/ParseInt/big.Int into a numeric field (never compared as text); Compare orders versions that differ in exactly one such field by that field, most significant first (queries on the abstract decision table with all other fields tied); a version carrying a pre-release marker compares below the same version without it, and post markers above; kind flags that partition Compare are set only under patterns that cannot match plain dotted-numeric text (github's documented four-digit date shape excepted).",
+ note=TRUST+" Not decided: numeric order inside the tokeniser/scanner ecosystems (alpine, alpm, conan, cran, gem, maven, debian, rpm: covered by C10-C14 where claimed); the set of accepted marker spellings at parse time (e.g. case folding of composer stabilities); composer isDev kind flag (set without a dominating match).",
+ design="DESIGN.md 5 (C03)"),
 'C07':dict(technique="static analysis: structural matching of the sort pipeline on SSA; order laws by re-running R-PREORDER/R-SIGN",
  text="The multiset-preservation and no-partial-output clauses are structural facts of cmd.sort/runEcosystem (one parse per argument, one String() per sorted element, nil result with an error); the ordering clauses reduce to Compare being a total preorder with range {-1,0,1}, which is decided by the abstract evaluator for every ecosystem whose comparator is in fragment.",
  note=TRUST+" slices.SortFunc is a correct comparison sort. Not decided: order laws for the scanner ecosystems beyond C01's coverage.",
